@@ -728,3 +728,125 @@ Theorem C06_reshape_unify_succeeds : forall (V : Type) s next (t : ptensor V) go
   b = true.
 Proof. exact reshape_unify_succeeds. Qed.
 Print Assumptions C06_reshape_unify_succeeds.
+
+(** * reshape / view on TYPED tensors: the unifier premises are theorems, and the "always succeeds" half
+
+    [typed_target pss s]: the primes of the tensor's dimension types [pss] regroup, in order, into one group
+    per target dimension of the sizes [s] (what makes [productAxis goals] and [productAxis self.vaxes] axes of one
+    type).  For such targets [complete_for], [solvable] and [size_preserving] hold (completeness of [unify] on
+    typed axes, [model_exists], [wts_ty] + [ty_numel]); the only premise left is well-formedness of the result
+    (checked by the run-time monitor on every construction). *)
+Require Import Fggs.Proofs.PTensor_reshape_typed Fggs.Proofs.PTensor_reshape_ok.
+
+Theorem C06_reshape_premises_typed : forall (V : Type) G next pss (t : ptensor V) s' goals nx st',
+  wf V t -> ctx_good G -> ctx_below G next -> tys G (vaxes t) pss -> Forall gprimes pss ->
+  typed_target pss s' -> goal_axes s' next = (goals, nx) ->
+  unify (rs_fuel V goals t) (productAxis goals) (productAxis (vaxes t)) (ustate0 nx) = Ok (true, st') ->
+  complete_for nx (productAxis goals) (productAxis (vaxes t)) (us_subst st') /\
+  solvable (us_subst st') /\
+  size_preserving (us_subst st') (goals ++ paxes_axes' (paxes t)).
+Proof. exact reshape_premises. Qed.
+Print Assumptions C06_reshape_premises_typed.
+
+Theorem C06_reshape_refines_typed : forall (V : Type) G pss inferred s next (t r : ptensor V) nx',
+  wf V t -> ctx_good G -> ctx_below G next -> tys G (vaxes t) pss -> Forall gprimes pss ->
+  (Nat.eqb (prodl' (shape V t)) (pnumel (paxes t)) && (prodl' (shape V t) <=? 1)) = false ->
+  pt_reshape V inferred s next t = Ok (r, nx') ->
+  wf V r ->
+  typed_target pss (shape V r) ->
+  prodl' (shape V r) = prodl' (shape V t) /\ default r = default t /\
+  forall idx', in_bounds (shape V r) idx' ->
+    denote V r idx' = denote V t (unflat (shape V t) (flat_offset (shape V r) idx')).
+Proof. exact reshape_refines_typed. Qed.
+Print Assumptions C06_reshape_refines_typed.
+
+(** [clone(subst)] terminates on every well-typed acyclic substitution within (size of the axis + total size
+    of the bindings) steps: along a chain of nested calls every binding is entered at most once *)
+Theorem C06_clone_total_typed : forall G sigma, wts G sigma ->
+  forall fuel e, asize e + asize_list (map snd sigma) <= fuel -> exists c, clone fuel sigma e = Ok c.
+Proof. exact clone_total_typed. Qed.
+Print Assumptions C06_clone_total_typed.
+
+(** "always succeeds when merging adjacent dimensions or inserting / removing size-1 dimensions": for every typed
+    tensor and every explicit target ([-1] not used) that replaces consecutive groups of dimensions (possibly
+    empty: a new size-1 dimension) by their products, the model of [reshape_or_view] returns -- with the fuel the
+    model uses: the unification binds or splits target axes only, [prime_factors] of every physical axis of
+    [self] is the axis itself, [clone] terminates and keeps the sizes, so all asserts hold.
+    Open: targets containing [-1] (checked at run time through the [must_succeed] flag, verdict 5). *)
+Theorem C06_reshape_merge_succeeds : forall (V : Type) G pss s next (t : ptensor V),
+  wf V t -> ctx_good G -> ctx_below G next -> tys G (vaxes t) pss -> Forall gprimes pss ->
+  merges (shape V t) s ->
+  exists r nx', pt_reshape V 0 s next t = Ok (r, nx').
+Proof. exact reshape_merge_succeeds. Qed.
+Print Assumptions C06_reshape_merge_succeeds.
+
+Theorem C06_reshape_unit_dims_succeed : forall (V : Type) G pss s next (t : ptensor V),
+  wf V t -> ctx_good G -> ctx_below G next -> tys G (vaxes t) pss -> Forall gprimes pss ->
+  nonunit (shape V t) = nonunit s ->
+  exists r nx', pt_reshape V 0 s next t = Ok (r, nx').
+Proof. exact reshape_unit_dims_succeed. Qed.
+Print Assumptions C06_reshape_unit_dims_succeed.
+
+(** a merge target is a typed target, so the two theorems compose: the reshape succeeds and (given [wf] of the
+    result) denotes the reshaped tensor *)
+Theorem C06_merges_typed_target : forall G shp s, merges shp s -> forall vs pss, map numel vs = shp -> tys G vs pss ->
+  Forall gprimes pss -> typed_target pss s.
+Proof. exact merges_typed_target. Qed.
+Print Assumptions C06_merges_typed_target.
+
+(** * project(paxes, vaxes) on typed pairs: the dense tensor returned, indexed according to [paxes], is [self]
+    indexed according to [vaxes].  [u] carries the target pattern ([paxes u], [vaxes u]; its storage is not
+    used); [typed_pair]: both well formed and typed alike in one context.  Covers the freshening of a target that
+    shares axes with [self], [new_full(default)], the unification (a missed coincidence would leave the
+    [new_full] value visible: completeness of [unify] on typed axes), the two low-level [project] calls under
+    the unifier with their free-axes check, and the strided [copy_]; any fuel. *)
+Require Import Fggs.Model.PTEqual Fggs.Proofs.PTEqual_typed_main Fggs.Proofs.PTensor_project.
+
+Theorem C06_project_refines : forall (V : Type) (t u : ptensor V) G next pss,
+  typed_pair V G next pss t u ->
+  forall shp st, pt_project V (paxes u) (vaxes u) next t = Ok (shp, st) ->
+  shp = map snd (paxes u) /\
+  forall c, in_bounds shp c ->
+    st (flat_offset shp c) = denote V t (evals (env_of (combine (map fst (paxes u)) c)) (vaxes u)).
+Proof. exact project_refines. Qed.
+Print Assumptions C06_project_refines.
+
+(** * where(t, c, u)
+
+    Full statement: for well-formed operands whose shapes broadcast, the result denotes [torch.where] of the
+    (broadcast) denotations.  Proved: the three operands have ONE typed shape (no broadcasting between them):
+    swap on [c.default], freshening of [t], [broadcast()] (the identity), unification of [c]'s pattern with [t]'s
+    (completeness: a missed coincidence would make the [masked_fill_] value [t.default] visible where [t] stores
+    an element), the fullness test (if the unifier left [c]'s physical axes free and distinct, every element of
+    [c] is matched, so skipping [masked_fill_] is sound), anti-unification of [c] with [u], densification of the
+    expanded [u], [masked_fill_], the strided [copy_] under the unifier.  Open: broadcasting between the three
+    operands (model + correspondence). *)
+Require Import Fggs.Proofs.PTensor_where_main.
+
+Theorem C06_where_refines_partial : forall (V : Type) (truth : V -> bool) G next pss,
+  ctx_good G -> ctx_below G next -> Forall gprimes pss ->
+  forall (t c u r : ptensor V) nx',
+  wf V t -> wf V c -> wf V u ->
+  tys G (vaxes t) pss -> tys G (vaxes c) pss -> tys G (vaxes u) pss ->
+  pt_where V truth next t c u = Ok (r, nx') ->
+  wf V r /\ shape V r = shape V c /\
+  forall idx, in_bounds (shape V c) idx ->
+    denote V r idx = if truth (denote V c idx) then denote V t idx else denote V u idx.
+Proof. exact where_refines_partial. Qed.
+Print Assumptions C06_where_refines_partial.
+
+(** * __iter__: [dim_to_dense(0)], then the slices along the leading dimension, in order.  The branch for a
+    [unitAxis] leading dimension yields ONE tensor that keeps the storage, the physical axes and the default.
+    Guard as for [dim_to_dense]: a size-1 leading dimension is [unitAxis]. *)
+Require Import Fggs.Proofs.PTensor_iter.
+
+Theorem C06_iter : forall (V : Type) next (t : ptensor V) l ed,
+  wf V t -> vars_below V next t -> nth_error (vaxes t) 0 = Some ed ->
+  (is_unit ed = true \/ numel ed <> 1) ->
+  pt_iter V next t = Ok l ->
+  length l = numel ed /\
+  forall j s, nth_error l j = Some s ->
+    wf V s /\ shape V s = tl (shape V t) /\ default s = default t /\
+    forall idx', in_bounds (tl (shape V t)) idx' -> denote V s idx' = denote V t (j :: idx').
+Proof. exact iter_refines. Qed.
+Print Assumptions C06_iter.
